@@ -30,6 +30,8 @@ def gen(seed, tier):
         else:
             spec["args"] = rng.choice(ARGS)
             spec["kwargs"] = rng.choice(KWARGS)
+            if rng.random() < 0.3:
+                spec["callable"] = rng.choice(["partial", "method", "instance", "unhashable-instance"])
             if rng.random() < 0.12:
                 # the same callable object adopted several times without arguments: that many payloads
                 spec["args"], spec["kwargs"], spec["times"] = [], {}, rng.choice([2, 3, 5])
